@@ -36,14 +36,22 @@ def _t(t, y):
     return torch.as_tensor(t, dtype=y.dtype)
 
 
+def _par(x, batch, gen):
+    """Parameter; with batch=B every path gets its own (slightly jittered) copy: shape (B, *x.shape)."""
+    if batch is None:
+        return nn.Parameter(x)
+    xb = x.unsqueeze(0).expand(batch, *x.shape) * (1 + 0.05 * torch.randn(batch, *x.shape, generator=gen))
+    return nn.Parameter(xb.contiguous())
+
+
 class GBM(Family):
     """dy = a y dt + s y o dW (component-wise); diagonal, or scalar noise (one W for all components)."""
 
-    def __init__(self, noise_type, sde_type, d, seed=0):
+    def __init__(self, noise_type, sde_type, d, seed=0, batch=None):
         super().__init__(noise_type, sde_type, d, d if noise_type == "diagonal" else 1)
         g = torch.Generator().manual_seed(seed)
-        self.a = nn.Parameter(torch.rand(d, generator=g) * 0.8 - 0.5)
-        self.s = nn.Parameter(torch.rand(d, generator=g) * 0.5 + 0.3)
+        self.a = _par(torch.rand(d, generator=g) * 0.8 - 0.5, batch, g)
+        self.s = _par(torch.rand(d, generator=g) * 0.5 + 0.3, batch, g)
 
     def f_strat(self, t, y):
         return self.a * y
@@ -63,12 +71,12 @@ class TimeGBM(Family):
     """dy = a y dt + (c0 + c1 t) y o dW: needs int b dW = b(t) W - c1 U (space-time Levy area)."""
     needs_U = True
 
-    def __init__(self, noise_type, sde_type, d, seed=0):
+    def __init__(self, noise_type, sde_type, d, seed=0, batch=None):
         super().__init__(noise_type, sde_type, d, d if noise_type == "diagonal" else 1)
         g = torch.Generator().manual_seed(seed)
-        self.a = nn.Parameter(torch.rand(d, generator=g) * 0.6 - 0.4)
-        self.c0 = nn.Parameter(torch.rand(d, generator=g) * 0.4 + 0.2)
-        self.c1 = nn.Parameter(torch.rand(d, generator=g) * 0.6 - 0.3)
+        self.a = _par(torch.rand(d, generator=g) * 0.6 - 0.4, batch, g)
+        self.c0 = _par(torch.rand(d, generator=g) * 0.4 + 0.2, batch, g)
+        self.c1 = _par(torch.rand(d, generator=g) * 0.6 - 0.3, batch, g)
 
     def b(self, t):
         return self.c0 + self.c1 * t
@@ -90,10 +98,10 @@ class TimeGBM(Family):
 class Arctan(Family):
     """dy = p cos^2(y) o dW  ->  y = arctan(p W + tan y0)   (Rackauckas-Nie example 2; g'' != 0)."""
 
-    def __init__(self, noise_type, sde_type, d, seed=0):
+    def __init__(self, noise_type, sde_type, d, seed=0, batch=None):
         super().__init__(noise_type, sde_type, d, d if noise_type == "diagonal" else 1)
         g = torch.Generator().manual_seed(seed)
-        self.p = nn.Parameter(torch.rand(d, generator=g) * 0.5 + 0.5)
+        self.p = _par(torch.rand(d, generator=g) * 0.5 + 0.5, batch, g)
 
     def f_strat(self, t, y):
         return torch.zeros_like(y)
@@ -115,11 +123,11 @@ class Arctan(Family):
 class Sinh(Family):
     """dy = c sqrt(1+y^2) dt + a sqrt(1+y^2) o dW  ->  y = sinh(asinh y0 + c tau + a W)."""
 
-    def __init__(self, noise_type, sde_type, d, seed=0):
+    def __init__(self, noise_type, sde_type, d, seed=0, batch=None):
         super().__init__(noise_type, sde_type, d, d if noise_type == "diagonal" else 1)
         g = torch.Generator().manual_seed(seed)
-        self.c = nn.Parameter(torch.rand(d, generator=g) * 0.6 - 0.3)
-        self.a = nn.Parameter(torch.rand(d, generator=g) * 0.4 + 0.3)
+        self.c = _par(torch.rand(d, generator=g) * 0.6 - 0.3, batch, g)
+        self.a = _par(torch.rand(d, generator=g) * 0.4 + 0.3, batch, g)
 
     def f_strat(self, t, y):
         return self.c * torch.sqrt(1 + y ** 2)
@@ -143,38 +151,52 @@ class LinearCommuting(Family):
 
     noise_type scalar (m=1) or general (m>=1). B_k = b_k0 I + b_k1 M + b_k2 M^2,  A = a0 I + a1 M."""
 
-    def __init__(self, noise_type, sde_type, d, m, seed=0):
+    def __init__(self, noise_type, sde_type, d, m, seed=0, batch=None):
         super().__init__(noise_type, sde_type, d, 1 if noise_type == "scalar" else m)
         g = torch.Generator().manual_seed(seed)
         M = torch.triu(torch.rand(d, d, generator=g) * 0.8 + 0.2)  # upper triangular, non-symmetric, non-normal
         M = M + 0.3 * torch.diag(torch.rand(d, generator=g))
         self.register_buffer("M", M * 0.5)
-        self.acoef = nn.Parameter(torch.tensor([-0.3, 0.2]))
-        self.bcoef = nn.Parameter(torch.rand(self.m, 3, generator=g) * 0.6 - 0.1)
+        self.batch = batch
+        self.acoef = _par(torch.tensor([-0.3, 0.2]), batch, g)
+        self.bcoef = _par(torch.rand(self.m, 3, generator=g) * 0.6 - 0.1, batch, g)
+
+    def _poly(self, c0, c1, c2=None):
+        """c0 I + c1 M + c2 M^2; coefficients scalar or (B,) -> (d,d) or (B,d,d)."""
+        eye = torch.eye(self.d)
+        if self.batch is not None:
+            c0, c1 = c0.reshape(-1, 1, 1), c1.reshape(-1, 1, 1)
+            c2 = None if c2 is None else c2.reshape(-1, 1, 1)
+        out = c0 * eye + c1 * self.M
+        if c2 is not None:
+            out = out + c2 * (self.M @ self.M)
+        return out
 
     def A(self):
-        eye = torch.eye(self.d)
-        return self.acoef[0] * eye + self.acoef[1] * self.M
+        return self._poly(self.acoef[..., 0], self.acoef[..., 1])
 
     def Bs(self):
-        eye = torch.eye(self.d)
-        M2 = self.M @ self.M
-        return [self.bcoef[k, 0] * eye + self.bcoef[k, 1] * self.M + self.bcoef[k, 2] * M2 for k in range(self.m)]
+        return [self._poly(self.bcoef[..., k, 0], self.bcoef[..., k, 1], self.bcoef[..., k, 2]) for k in range(self.m)]
+
+    def _mv(self, Mx, y):
+        return torch.einsum("bij,bj->bi", Mx, y) if Mx.dim() == 3 else y @ Mx.T
 
     def f_strat(self, t, y):
-        return y @ self.A().T
+        return self._mv(self.A(), y)
 
     def ito_correction(self, t, y):
-        return 0.5 * sum(y @ (Bk @ Bk).T for Bk in self.Bs())
+        return 0.5 * sum(self._mv(Bk @ Bk, y) for Bk in self.Bs())
 
     def g(self, t, y):
-        return torch.stack([y @ Bk.T for Bk in self.Bs()], dim=-1)
+        return torch.stack([self._mv(Bk, y) for Bk in self.Bs()], dim=-1)
 
     def exact(self, t0, t, y0, W, U=None):
         Bs = self.Bs()
+        A = self.A()
         out = []
         for b in range(y0.size(0)):
-            E = self.A() * (t - t0) + sum(Bs[k] * W[b, k] for k in range(self.m))
+            pick = (lambda Mx: Mx[b]) if self.batch is not None else (lambda Mx: Mx)
+            E = pick(A) * (t - t0) + sum(pick(Bs[k]) * W[b, k] for k in range(self.m))
             out.append(torch.matrix_exp(E) @ y0[b])
         return torch.stack(out)
 
@@ -183,11 +205,12 @@ class AdditiveRN(Family):
     """dy = (beta/sqrt(1+t) - y/(2(1+t))) dt + C/sqrt(1+t) dW   (Rackauckas-Nie example 3, any m):
     sqrt(1+t) y_t = sqrt(1+t0) y_0 + beta tau + C W."""
 
-    def __init__(self, noise_type, sde_type, d, m, seed=0):
+    def __init__(self, noise_type, sde_type, d, m, seed=0, batch=None):
         super().__init__("additive", sde_type, d, m)
         g = torch.Generator().manual_seed(seed)
-        self.beta = nn.Parameter(torch.rand(d, generator=g) - 0.5)
-        self.C = nn.Parameter(torch.rand(d, m, generator=g) * 0.8 - 0.4)
+        self.batch = batch
+        self.beta = _par(torch.rand(d, generator=g) - 0.5, batch, g)
+        self.C = _par(torch.rand(d, m, generator=g) * 0.8 - 0.4, batch, g)
 
     def f_strat(self, t, y):
         t = _t(t, y)
@@ -198,30 +221,33 @@ class AdditiveRN(Family):
 
     def g(self, t, y):
         t = _t(t, y)
-        return (self.C / torch.sqrt(1 + t)).unsqueeze(0).expand(y.size(0), -1, -1)
+        G = self.C / torch.sqrt(1 + t)
+        return G if self.batch is not None else G.unsqueeze(0).expand(y.size(0), -1, -1)
 
     def exact(self, t0, t, y0, W, U=None):
-        return (math.sqrt(1 + t0) * y0 + self.beta * (t - t0) + W @ self.C.T) / math.sqrt(1 + t)
+        CW = torch.einsum("bik,bk->bi", self.C, W) if self.batch is not None else W @ self.C.T
+        return (math.sqrt(1 + t0) * y0 + self.beta * (t - t0) + CW) / math.sqrt(1 + t)
 
 
-def families_for(noise_type, sde_type, seed=0, d=None):
-    """List of (name, family) applicable to a noise type."""
+def families_for(noise_type, sde_type, seed=0, d=None, batch=None):
+    """List of (name, family) applicable to a noise type. batch=B: every path has its own parameter copy."""
     out = []
+    kw = dict(seed=seed, batch=batch)
     if noise_type == "diagonal":
         d = d or 2
-        out += [("gbm", GBM("diagonal", sde_type, d, seed)), ("arctan", Arctan("diagonal", sde_type, d, seed)),
-                ("sinh", Sinh("diagonal", sde_type, d, seed)), ("timegbm", TimeGBM("diagonal", sde_type, d, seed))]
+        out += [("gbm", GBM("diagonal", sde_type, d, **kw)), ("arctan", Arctan("diagonal", sde_type, d, **kw)),
+                ("sinh", Sinh("diagonal", sde_type, d, **kw)), ("timegbm", TimeGBM("diagonal", sde_type, d, **kw))]
     elif noise_type == "scalar":
-        out += [("lincomm", LinearCommuting("scalar", sde_type, d or 2, 1, seed)),
-                ("gbm", GBM("scalar", sde_type, d or 2, seed)),
-                ("arctan", Arctan("scalar", sde_type, 1, seed)),
-                ("timegbm", TimeGBM("scalar", sde_type, d or 2, seed))]
+        out += [("lincomm", LinearCommuting("scalar", sde_type, d or 2, 1, **kw)),
+                ("gbm", GBM("scalar", sde_type, d or 2, **kw)),
+                ("arctan", Arctan("scalar", sde_type, 1, **kw)),
+                ("timegbm", TimeGBM("scalar", sde_type, d or 2, **kw))]
     elif noise_type == "additive":
-        out += [("additive_rn", AdditiveRN("additive", sde_type, d or 2, 3, seed)),
-                ("additive_rn1", AdditiveRN("additive", sde_type, 1, 1, seed + 1))]
+        out += [("additive_rn", AdditiveRN("additive", sde_type, d or 2, 3, **kw)),
+                ("additive_rn1", AdditiveRN("additive", sde_type, 1, 1, seed=seed + 1, batch=batch))]
     else:
-        out += [("lincomm", LinearCommuting("general", sde_type, d or 2, 2, seed)),
-                ("lincomm3", LinearCommuting("general", sde_type, 3, 3, seed + 1))]
+        out += [("lincomm", LinearCommuting("general", sde_type, d or 2, 2, **kw)),
+                ("lincomm3", LinearCommuting("general", sde_type, 3, 3, seed=seed + 1, batch=batch))]
     return out
 
 
